@@ -27,7 +27,7 @@ package migrations
 //@   ensures [DataLimit] (*result0).DataLimit == (*oldChannelState).DataLimit
 //@   ensures [RequiresFinalization] (*result0).RequiresFinalization == (*oldChannelState).RequiresFinalization
 //@   ensures [Stages] (*result0).Stages == (*oldChannelState).Stages
-//@   ensures [status] (*result0).Status == (((*oldChannelState).Status == datatransfer.InitiatorPaused || (*oldChannelState).Status == datatransfer.ResponderPaused ||
+//@   ensures [status] {C13,C02} (*result0).Status == (((*oldChannelState).Status == datatransfer.InitiatorPaused || (*oldChannelState).Status == datatransfer.ResponderPaused ||
 //@       (*oldChannelState).Status == datatransfer.BothPaused) ? datatransfer.Ongoing : (*oldChannelState).Status)
 //@   ensures [ip] (*result0).InitiatorPaused == ((*oldChannelState).Status == datatransfer.InitiatorPaused || (*oldChannelState).Status == datatransfer.BothPaused)
 //@   ensures [rp] (*result0).ResponderPaused == ((*oldChannelState).Status == datatransfer.ResponderPaused || (*oldChannelState).Status == datatransfer.BothPaused)
